@@ -25,9 +25,13 @@ Definition content_at (st : state) (p : path) : content :=
    the sample the handle believes it is at is skipped ---- *)
 Record rd := mkrd { rpos : nat; roff : nat }.
 
-(* read up to n samples of size sz starting at sample s0 from content c *)
-Definition rd_read (sz : nat) (c : content) (r : rd) (s0 n : nat) : content * rd :=
+(* read up to n samples of size sz starting at sample s0 from content c.
+   fx = does _GD_RawRead step back over a trailing partial sample?
+   (regenerated from src/raw.c by translate/tr_rawread.py -> Gen.RawShape) *)
+Definition rd_read (fx : bool) (sz : nat) (c : content) (r : rd) (s0 n : nat) : content * rd :=
   let off := if rpos r =? s0 then roff r else s0 * sz in
   let got := firstn (n * sz) (skipn off c) in
   let whole := length got / sz in
-  (firstn (whole * sz) got, mkrd (s0 + whole) (off + length got)).
+  (firstn (whole * sz) got, mkrd (s0 + whole) (if fx then off + whole * sz else off + length got)).
+
+Definition aligned (sz : nat) (r : rd) : Prop := roff r = rpos r * sz.
